@@ -2308,6 +2308,15 @@ impl Registry {
         for i in late {
             q.push_back(format!("add_dec {} {}", i, if kind >= 2 { NOMINAL[i] } else { Self::dec(rng) }));
         }
+        // a native denom's decimals RE-REGISTERED with another value while pairs / trios over it exist (the
+        // factory allows it; entries already made keep what their children were instantiated with: seed C19-Q);
+        // every operation is followed by the listing walk and the keyed lookups in both argument orders
+        if rng.chance(1, 2) {
+            for _ in 0..rng.range(1, 3) {
+                let i = rng.below(NN as u64) as usize;
+                q.push_back(format!("add_dec {} {}", i, *rng.pick(&[5u8, 7, 9, 12, 18])));
+            }
+        }
     }
 }
 
